@@ -388,6 +388,7 @@ HEXLEN = {"sha256": 64, "sha512": 128}
 class Abstractor:
     def __init__(self, catalog):
         self.name = {o["digest"]: o["name"] for o in catalog}
+        self.name.update({o["digest512"]: o["name"] for o in catalog if o.get("digest512")})
         self.cat = {o["name"]: o for o in catalog}
         self._hash = {}
 
@@ -514,7 +515,7 @@ class Abstractor:
         f["dangling"] = [t for t in sorted(tags) if not complete(tags[t])]
         f["dangling_u"] = sorted(set(self.nm(d) for d in untagged if not complete(d)))
         if opobj is not None and opobj in self.cat:
-            f["has"] = 1 if present.get(self.cat[opobj]["digest"]) else 0
+            f["has"] = 1 if (present.get(self.cat[opobj]["digest"]) or present.get(self.cat[opobj].get("digest512", ""))) else 0
         else:
             f["has"] = 0
         return f
@@ -587,7 +588,10 @@ SCENARIOS = [
     # spelling of the target reference: relative path (the GC state is keyed by the path), tag and digest together
     ("P1", "put_tag:v2:M2+gc~rel"), ("P2", "tag_delete:v2+gc~rel"), ("E", "copy:v1:m1+gc~rel"),
     ("P1", "import:v2:m2+gc~rel"), ("PR", "man_delete:A1+gc~rel"), ("P1", "put_tag:v2:M2~td"),
+    # digest algorithm: sha512 blob (new directory blobs/sha512) and a tagged manifest stored under its sha512 digest
+    ("P1", "blob_put:L3:s512"), ("E", "blob_put:L4:s512"), ("P1", "put_tag:v2:M2+gc~s512"),
 ]
+NOT_IN_D = ("s512",)          # (D) has one abstract blobs/<alg> directory: the sha512 recordings are not matched against it
 EXPECT_FAIL = ("blob_bad", "man_bad")
 STATES = ["E", "E0", "P1", "P2", "PX", "PR", "PR2", "PT"]
 
@@ -1110,7 +1114,7 @@ def run(ctx):
     if not ctx.replay:
         # baseline of (D) = the code since 5457c02 (MarkerMode = ifbad): must hold with crashes anywhere
         mc.append(ctx.tlc("LayoutFSMC", "C07_mc_quick.cfg", timeout=900,
-                          label="baseline (marker written only when missing/unreadable): 61 scenarios, crash anywhere + retry"))
+                          label="baseline (marker written only when missing/unreadable): 70 scenarios, crash anywhere + retry"))
         rc_ = ctx.tlc("LayoutFSMC", "C07_mc_refcopyq.cfg", allow_violation=True, timeout=900,
                       label="image copy with referrers (counterexample expected: interrupted referrer copy not repaired)")
         mc.append(rc_)
@@ -1234,6 +1238,7 @@ def run(ctx):
     nbase = len(SCENARIOS)
     dts = [d for i, d in enumerate(dts)
            if not (d["header"]["kind"] in CONCURRENT and d["header"]["o"] == "IX") or (thorough and i < nbase)]
+    dts = [d for d in dts if not any(x in byid[d["id"]].op for x in NOT_IN_D)]
     done, drift = validate_dtraces(ctx, dts, "ifbad", "dtrace")
     cov["design_traces_matched"] = len(done)
     cov["design_traces_total"] = len(dts)
